@@ -28,3 +28,11 @@ Theorem C04_refusal : forall ip6 c evs, c_mw c = true ->
     (run ip6 (fun _ => c_hres c) (c_mw c) (c_upload c) (c_ip c) (c_fp c) init evs) = true.
 Proof. exact Server_proofs.refusal. Qed.
 Print Assumptions C04_refusal.
+
+(* tie to the code: the definition regenerated from MiddlewareChain.process_request answers with the FIRST rejecting
+   component's response, and admits only if every component admits *)
+From NV Require Gen.PyGen Equiv.Equiv.
+Theorem C04_first_rejection_wins : forall mws url ip fp,
+  PyGen.gen_chain_process mws url ip fp = Equiv.chain_spec mws url ip fp.
+Proof. exact Equiv.chain_process_tie. Qed.
+Print Assumptions C04_first_rejection_wins.
